@@ -24,7 +24,7 @@ import vlib
 LANG = os.path.join(vlib.SPEC, "lang")
 
 
-def make_sources(base, rng, nfiles):
+def make_sources(base, rng, nfiles, progs=None):
     files = {}
     ids = []
     for i in range(nfiles):
@@ -41,7 +41,45 @@ def make_sources(base, rng, nfiles):
         rel = "pkg%d/src.go" % i
         files[rel] = gogen.render_file("pkg%d" % i, funcs)
         ids.append(rel)
+    # the families of the other checks are inputs here too: whatever an analysis remembers across functions
+    # (memo tables, shared constants, pooled scratch state) shows up as dependence on the order of the run
+    # (a) every counted-loop shape of Loop.tla in the contexts single / nested / sibling / constant bounds
+    import itertools
+    import loopgen
+    import minigo
+    items = []
+    for pos, cmp_, stay, ivl, step, extra in itertools.product(("top", "bottom"), ("<", "<=", ">", "!="), (True, False), (True, False),
+                                                               (1, 2, -1, -3), ("none", "cont", "condupd", "partupd", "skiptest", "innerexit")):
+        if extra != "none" and (pos != "top" or rng.random() < 0.6):
+            continue
+        sh = {"pos": pos, "cmp": cmp_, "stay": stay, "ivLeft": ivl, "step": step, "extra": extra, "width": rng.choice([0, 0, 8])}
+        cx = rng.choice(loopgen.CONTEXTS) if extra in ("none", "cont", "condupd") else "single"
+        items.append((sh, cx, (rng.choice([0, 1, 5]), rng.choice([0, 3, 8])) if cx == "const" else None))
+    files["loops/loops.go"] = loopgen.render(items, pkg="loops")[0]
+    ids.append("loops/loops.go")
+    # (b) loops whose start, limit and step are arithmetic over locals holding 0, 1, -1, 2 (not folded by
+    # go/ssa): the analysis evaluates and folds constant expressions here
+    n = 0
+    for c1, op in itertools.product((0, 1, -1, 2), ("+", "-", "*")):
+        pk = "ca%d" % n
+        ca = ["package %s\n" % pk]
+        for c2 in (0, 1, 2, 3):
+            n += 1
+            ca.append("func CA%d(n int) int {\n\tlo := %d\n\ts := 0\n\tfor i := lo %s %d; i < n+(lo%s%d); i += 1 + lo*0 {\n\t\ts += i\n\t}\n"
+                      "\tfor j := %d %s lo; j < lo%s%d+10; j++ {\n\t\ts -= j * (lo %s %d)\n\t}\n\treturn s\n}\n" % (n, c1, op, c2, op, c2, c2, op, op, c2, op, c2))
+        files["%s/ca.go" % pk] = "\n".join(ca)
+        ids.append("%s/ca.go" % pk)
+    # (c) one instance of every MiniGo template
+    bytpl, mg = {}, []
+    for k in sorted(progs or {}):
+        bytpl.setdefault(progs[k]["p"]["tpl"], []).append(progs[k]["p"])
+    for t in sorted(bytpl):
+        for p in rng.sample(bytpl[t], min(5, len(bytpl[t]))):
+            mg.append((p, "M%d" % len(mg), len(mg) % 3))
+    files["pk/f.go"] = minigo.render_file("pk", mg).replace("example.com/minigo/", "example.com/c01/")
+    ids.append("pk/f.go")
     gogen.write_module(base, "gen", files, module="example.com/c01")
+    minigo.write_support(base)
     return ids
 
 
@@ -65,16 +103,39 @@ def check(ctx):
     ctx.notes["pool_fields_with_residue_after_reacquire"] = residue     # model drift if non-empty (StrictMode is configured per use)
     rng = random.Random(ctx.seed * 31 + 1)
     A = os.path.join(ctx.scratch, "loc_a", "mod")
-    ids = make_sources(A, rng, 5 if thorough else 3)
+    import proglib
+    ids = make_sources(A, rng, 5 if thorough else 3, proglib.catalogue(ctx))
     B = os.path.join(ctx.scratch, "another", "deeper", "location", "mod")
     shutil.copytree(A, B)
     traces = []
+    evs = []
+    # baseline: every file alone in a fresh process (no history).  A file whose analysis does not return
+    # even then (twice) has no result to compare and is left to C17; it is excluded from the histories.
+    dead = []
+    for n, i in enumerate(ids):
+        pp = os.path.join(ctx.scratch, "base%d.json" % n)
+        out = os.path.join(ctx.scratch, "base%d.ndjson" % n)
+        with open(pp, "w") as fh:
+            json.dump({"files": [{"id": i, "path": os.path.join(A, i)}], "rounds": 1, "goroutines": 0, "seed": n,
+                       "label": "fresh process, this file only"}, fh)
+        for attempt in (1, 2):
+            ctx.drv(["fp-run", "-plan", pp, "-out", out], timeout=400)
+            got = vlib.read_ndjson(out)
+            if not any(e["digest"] == "NO-RESULT" for e in got):
+                break
+        if any(e["digest"] == "NO-RESULT" for e in got):
+            dead.append(i)
+        else:
+            evs += got
+    ctx.notes["files_without_result_even_alone"] = dead
+    ids = [i for i in ids if i not in dead]
+    if len(ids) < 3:
+        raise vlib.Inconclusive("the analysis returns for fewer than 3 of the generated files even in a fresh process: %s" % dead[:5])
     jobs = []
     for loc, root in (("A", A), ("B", B)):
         for g in ((1, 2, 16) if loc == "A" else (4,)):
             for rep in range(2 if loc == "A" else 1):
                 jobs.append((loc, root, g, rep))
-    evs = []
     for n, (loc, root, g, rep) in enumerate(jobs):
         plan = {"files": [{"id": i, "path": os.path.join(root, i)} for i in ids], "rounds": 3 if thorough else 1,
                 "goroutines": 32 if thorough else 12, "seed": ctx.seed * 100 + n,
@@ -83,8 +144,17 @@ def check(ctx):
         out = os.path.join(ctx.scratch, "run%d.ndjson" % n)
         with open(pp, "w") as fh:
             json.dump(plan, fh)
-        ctx.drv(["fp-run", "-plan", pp, "-out", out], env_extra={"GOMAXPROCS": str(g)}, timeout=1800)
-        evs += vlib.read_ndjson(out)
+        ctx.drv(["fp-run", "-plan", pp, "-out", out], env_extra={"GOMAXPROCS": str(g)}, timeout=900)
+        got = vlib.read_ndjson(out)
+        if any(e["digest"] == "NO-RESULT" for e in got):
+            # a call that never returned in this context: must reproduce before it counts as an outcome
+            ctx.drv(["fp-run", "-plan", pp, "-out", out + ".again"], env_extra={"GOMAXPROCS": str(g)}, timeout=900)
+            again = vlib.read_ndjson(out + ".again")
+            if not any(e["digest"] == "NO-RESULT" for e in again):
+                raise vlib.Inconclusive("a fingerprint call did not return within the deadline once, but did on the re-run (load?)")
+            evs += got
+            break       # the remaining processes would only repeat it
+        evs += got
     if any(e["functions"] == 0 for e in evs):
         raise vlib.Inconclusive("a fingerprint run returned no functions")
     ctx.notes["fingerprint_runs"] = len(evs)
@@ -101,8 +171,9 @@ def check(ctx):
         replay = ctx.save_replay("%s_%s" % (e["kind"], e["input"].replace("/", "_")),
                                  {"event.json": e, "first.json": first, "source.go": open(os.path.join(A, e["input"])).read()})
         ctx.violation("C01:%s" % e["kind"],
-                      "fingerprints of %s (%s) differ between contexts: %r gave %s, %r gave %s"
-                      % (e["input"], e["kind"], first["ctx"], first["digest"], e["ctx"], e["digest"]), replay)
+                      "fingerprints of %s (%s) differ between contexts: %r gave %s, %r gave %s%s"
+                      % (e["input"], e["kind"], first["ctx"], first["digest"], e["ctx"], e["digest"],
+                         " (NO-RESULT: the call did not return within 90 s in that context, twice)" if "NO-RESULT" in (e["digest"], first["digest"]) else ""), replay)
     ctx.sample({"runs": evs[:2] + evs[-2:]})
     c = [dict(evs[0]), dict(evs[0], digest="0" * 20, ctx="corrupted")]
     cp = os.path.join(ctx.scratch, "canary.ndjson")
